@@ -4,7 +4,7 @@ From Coq Require Import List NArith Arith.
 From DS Require Import Gen.Constants Base.Bytes Base.Hash Base.Sched Model.Assemble Model.Clone
      Model.VerifyIndex Model.Sequencer Proofs.AssembleProofs Proofs.CloneProofs Proofs.SequencerProofs
      Proofs.AssembleSeqProofs Proofs.AssembleLive Proofs.AssembleTraceProofs Model.SelfSeed Proofs.SelfSeedProofs
-     Model.Pool Proofs.PoolProofs.
+     Model.Pool Proofs.PoolProofs Model.Regenerate Proofs.RegenerateProofs.
 Import ListNotations.
 
 (* SAFETY.  For every index, every plan that tiles it, every initial content of the (truncated)
@@ -196,4 +196,78 @@ Example C01_plan_example :
   option_map (fun pn => (ex_show (fst pn), snd pn))
     (replan 3 [SNull false 0%N; ex_seed1 false; ex_seed2] ex_rows [[1]]) = Some ([(0, 1, 12); (2, 4, 12)], 2) /\
   ex_show (plan [SNull false 3%N; ex_seed1 true] ex_rows) = [(0, 0, 0); (1, 1, 0); (2, 2, 20); (3, 3, 0); (4, 4, 0)].
+Proof. vm_compute. repeat split. Qed.
+
+(* THE VALIDATE LOOP WITH THE SEEDS' DATA (Model/Regenerate.v).  Here the verdict of Plan.Validate is
+   not an oracle: every file seed carries the (static) bytes of its file and a segment validates
+   when each of its chunks, read at the start/size the SEED index gives, has the digest the seed
+   index gives.  Which of the failing seeds the racing workers mark is the scheduler's choice.
+   With --regenerate-invalid-seeds the loop ends after at most (stale seeds + 1) attempts -- a
+   stale seed is one whose index does not describe its data, or which is marked -- with a plan all
+   of whose segments validate; [index_from_file] is Model/Chunker.v's chunker with the seed index'
+   own parameters. *)
+Theorem C01_regenerate_loop_ends : forall (H : bytes -> id) (min max : nat) (d : N),
+  Chunker.W <= min -> min <= max -> 0 < max ->
+  forall idx ds choices,
+  exists o, Regenerate.vloop H (index_from_file H min max d) Regen (S (stale H ds)) ds idx choices = Some o /\
+    finished H ds idx o /\ o_attempts o <= stale H ds + 1.
+Proof. exact regenerate_loop_ends. Qed.
+Print Assumptions C01_regenerate_loop_ends.
+
+(* the same for any regenerator whose result describes the data it was given *)
+Theorem C01_regenerate_loop_ends_gen : forall (H : bytes -> id) (chunkf : bytes -> list ichunk),
+  (forall d, seg_valid H d (chunkf d) = true) ->
+  forall idx fuel ds choices, stale H ds < fuel ->
+  exists o, Regenerate.vloop H chunkf Regen fuel ds idx choices = Some o /\ finished H ds idx o /\ o_attempts o <= stale H ds + 1.
+Proof. exact vloop_regen_terminates. Qed.
+Print Assumptions C01_regenerate_loop_ends_gen.
+
+(* --skip-invalid-seeds with computed verdicts: at most (usable file seeds + 1) attempts, and the
+   final plan validates.  (C01_replan_terminates is the same bound for arbitrary verdicts.) *)
+Theorem C01_skip_loop_ends : forall (H : bytes -> id) (chunkf : bytes -> list ichunk) idx fuel ds choices,
+  dusable ds < fuel ->
+  exists o, Regenerate.vloop H chunkf Skip fuel ds idx choices = Some o /\ finished H ds idx o /\ o_attempts o <= dusable ds + 1.
+Proof. exact vloop_skip_terminates. Qed.
+Print Assumptions C01_skip_loop_ends.
+
+(* default action: one attempt, which succeeds exactly when no segment of the first plan is stale *)
+Theorem C01_bail_out : forall (H : bytes -> id) (chunkf : bytes -> list ichunk) idx fuel ds choices,
+  exists o, Regenerate.vloop H chunkf Bail (S fuel) ds idx choices = Some o /\ o_attempts o = 1 /\
+    o_plan o = plan (map fst ds) idx /\
+    (o_ok o = true <-> truly_bad H ds (plan (map fst ds) idx) = []).
+Proof. exact vloop_bail. Qed.
+Print Assumptions C01_bail_out.
+
+(* WHAT A VALIDATED PLAN HANDS TO THE WORKERS: every row a file seed provides is, in that seed's
+   data, a byte string in range whose digest is the id the TARGET index has at that row. *)
+Theorem C01_validated_plan_sources : forall (H : bytes -> id) ds idx c k m j,
+  truly_bad H ds (plan (map fst ds) idx) = [] ->
+  In c (plan (map fst ds) idx) -> cd_src c = Some (FromFile k m) -> j < length m ->
+  exists sc row, nth_error m j = Some sc /\ nth_error idx (cd_first c + j) = Some row /\
+    Sequencer.c_id sc = Sequencer.c_id row /\ chunk_valid H (data_of ds k) sc = true.
+Proof. exact validated_plan_sources. Qed.
+Print Assumptions C01_validated_plan_sources.
+
+(* IndexFromFile's rows describe the data that was chunked *)
+Theorem C01_index_from_file_describes : forall (H : bytes -> id) (min max : nat) (d : N),
+  Chunker.W <= min -> min <= max -> 0 < max ->
+  forall data, seg_valid H data (index_from_file H min max d data) = true.
+Proof. exact index_from_file_describes. Qed.
+Print Assumptions C01_index_from_file_describes.
+
+(* Non-vacuity: a seed whose index is stale (its second row claims id 2 where the data hashes to
+   something else under the toy digest "sum of bytes"): bail-out fails at attempt 1, skip ends at
+   attempt 2 without the seed, regenerate ends at attempt 2 with the seed's real rows in use. *)
+Definition ex_H (b : bytes) : id := fold_right N.add 0%N b.
+Definition ex_regen (d : bytes) : list ichunk := rows_of_chunks ex_H 0 (map (fun x => [x]) d).
+Definition ex_target : list ichunk := index_rows [(1%N, 1); (7%N, 1); (3%N, 1)].
+Definition ex_ds : list dseed := [(SFile false false (index_rows [(1%N, 1); (7%N, 1); (3%N, 1)]), [1%N; 2%N; 3%N])].
+Example C01_vloop_example :
+  option_map (fun o => (o_ok o, o_attempts o, ex_show (o_plan o))) (Regenerate.vloop ex_H ex_regen Bail 5 ex_ds ex_target [])
+    = Some (false, 1, [(0, 2, 10)]) /\
+  option_map (fun o => (o_ok o, o_attempts o, ex_show (o_plan o))) (Regenerate.vloop ex_H ex_regen Skip 5 ex_ds ex_target [])
+    = Some (true, 2, [(0, 0, 0); (1, 1, 0); (2, 2, 0)]) /\
+  option_map (fun o => (o_ok o, o_attempts o, ex_show (o_plan o))) (Regenerate.vloop ex_H ex_regen Regen 5 ex_ds ex_target [])
+    = Some (true, 2, [(0, 0, 10); (1, 1, 0); (2, 2, 10)]) /\
+  stale ex_H ex_ds = 1 /\ dusable ex_ds = 1.
 Proof. vm_compute. repeat split. Qed.
